@@ -581,3 +581,379 @@ def finder_listing(sg, ops, strata_pts, rng, with_u=False):
                 if max(abs(a - b) for a, b in zip(want_u, got_u)) > F(1, 10 ** 9):
                     yield ("equ", "expanded Uij at %s is not the rotated generator tensor" % (list(pos),), data)
                     return
+
+
+# ---------------------------------------------------------------- usage patterns: shared arrays, non-default eps, read-only queries
+def _sym(U6):
+    M = numpy.zeros((3, 3))
+    for v, (a, b) in zip(U6, UIDX):
+        M[a, b] = M[b, a] = float(v)
+    return M
+
+
+def _formulas_tensor(uf, upars):
+    vals = {s: F(float(v)) for s, v in upars}
+    return [eval_formula_ast(uf[s], vals) for s in USYM]
+
+
+def _gen_state(g):
+    return {"xyz": numpy.array(g.xyz), "Uij": numpy.array(g.Uij), "eqxyz": [numpy.array(p) for p in g.eqxyz],
+            "eqUij": [numpy.array(u) for u in g.eqUij], "ppar": list(g.pparameters), "Upar": list(g.Uparameters),
+            "N": numpy.array(g.null_space), "Usp": numpy.array(g.Uspace), "iso": g.Uisotropy, "mult": g.multiplicity}
+
+
+def _state_diff(a, b):
+    for k in a:
+        x, y = a[k], b[k]
+        if isinstance(x, list) and x and isinstance(x[0], numpy.ndarray):
+            same = len(x) == len(y) and all(numpy.array_equal(p, q) for p, q in zip(x, y))
+        elif isinstance(x, numpy.ndarray):
+            same = x.shape == y.shape and numpy.array_equal(x, y)
+        else:
+            same = x == y
+        if not same:
+            return k
+    return None
+
+
+def make_usage_case(ops, strata, rng, maxorbit=48):
+    """Exact sites for the usage-pattern finder of one setting: s1 = most special stratum, s2 = a different one
+    (general position if nothing else), both with decision margin > 1/100 so that eps = 1e-3 is unambiguous."""
+    order = sorted(range(len(strata)), key=lambda i: (-len(strata[i]["stab"]), rng.random()))
+    pts = []
+    first = None
+    for i in order:
+        x = st.sample_point(ops, strata[i], rng, margin=F(1, 100))
+        if x is not None:
+            pts.append(x)
+            first = i
+            break
+    if first is not None:
+        others = [j for j in order if j != first]
+        rng.shuffle(others)
+        others.sort(key=lambda j: len(ops) // len(strata[j]["stab"]) > maxorbit)     # small orbits first, any as fallback
+        for j in others + [first]:
+            y = st.sample_point(ops, strata[j], rng, margin=F(1, 100))
+            if y is not None:
+                pts.append(y)
+                break
+    if not pts:
+        return None
+    d = [rng.randrange(20, 900) / 10000.0 for _ in range(3)]
+    o = [rng.randrange(-150, 150) / 10000.0 for _ in range(3)]
+    return {"sites": [[str(v) for v in x] for x in pts], "U": [d[0], d[1], d[2], o[0], o[1], o[2]],
+            "delta": [rng.choice((-1, 1)) * rng.randrange(1, 4) / 10.0 for _ in range(3)]}
+
+
+def finder_usage(sg, ops, case, pid):
+    """How the objects are used, on the real code.  Yields (kind, message, data); kinds prefixed by what they test:
+    alias-*   the same float64 ndarray object handed over for several sites / constructions: the caller's array must stay
+              unchanged and every result must equal the one obtained with fresh copies;
+    eps-*     non-default tolerances (1e-3 with coordinates rounded to 4 decimals, 1e-7 with exact coordinates): formulas
+              exist for every position within eps of an equivalent position and reproduce the stored values;
+    query-*   read-only queries (formulas, pruned formulas, symbols) must not change what is returned afterwards."""
+    from diffpy.structure.symmetryutilities import GeneratorSite, SymmetryConstraints, ExpandAsymmetricUnit
+    sites = [[F(v) for v in x] for x in case["sites"]]
+    xs = [numpy.array([float(v) for v in x]) for x in sites]
+    U0 = _sym(case["U"])
+    want_u = pid == "C06"
+    data = {"usage": case}
+    close = lambda a, b: numpy.allclose(a, b, rtol=0, atol=1e-12)      # noqa: E731
+
+    # ---------------- aliasing
+    ref = [GeneratorSite(sg, x.copy(), U0.copy()) for x in xs]
+    U = U0.copy()
+    built = []
+    for n, x in enumerate(xs):
+        xin = x.copy()
+        g = GeneratorSite(sg, xin, U)
+        if not numpy.array_equal(xin, x):
+            if not want_u:
+                yield ("alias-xyz", "GeneratorSite(%s, xyz=%s) changed the caller's coordinate array to %s" % (
+                    sg.short_name, x.tolist(), xin.tolist()), data)
+            return
+        if want_u:
+            if not numpy.array_equal(U, U0):
+                yield ("alias-input", "GeneratorSite(%s, %s, U) overwrote the caller's tensor array: %s -> %s" % (
+                    sg.short_name, x.tolist(), U0.tolist(), U.tolist()), data)
+                return
+            if not close(g.Uij, ref[n].Uij) or not all(close(a, b) for a, b in zip(g.eqUij, ref[n].eqUij)):
+                yield ("alias-result", "GeneratorSite(%s, %s, U) built after %d other site(s) from the same array object stores %s, "
+                       "with a fresh copy of the same tensor %s" % (sg.short_name, x.tolist(), n, g.Uij.tolist(), ref[n].Uij.tolist()), data)
+                return
+        built.append((g, _gen_state(g)))
+        for gp, sp in built[:-1]:
+            k = _state_diff(sp, _gen_state(gp))
+            if k is not None and (want_u or k in ("xyz", "eqxyz", "ppar", "N", "mult")):
+                yield ("alias-history", "attribute %s of GeneratorSite(%s, %s) changed when another GeneratorSite was built from the same arrays"
+                       % (k, sg.short_name, xs[built.index((gp, sp))].tolist()), data)
+                return
+    if want_u and len(xs) > 1:
+        U = U0.copy()
+        e1 = ExpandAsymmetricUnit(sg, [x.tolist() for x in xs], len(xs) * [U])
+        e2 = ExpandAsymmetricUnit(sg, [x.tolist() for x in xs], [U0.copy() for _ in xs])
+        if not numpy.array_equal(U, U0):
+            yield ("alias-input", "ExpandAsymmetricUnit(%s, %s, %d*[U]) overwrote the caller's tensor array" % (
+                sg.short_name, [x.tolist() for x in xs], len(xs)), data)
+            return
+        for n in range(len(xs)):
+            if not all(close(a, b) for a, b in zip(e1.expandedUijs[n], e2.expandedUijs[n])):
+                yield ("alias-result", "ExpandAsymmetricUnit(%s, %s, %d*[U]): site %d gets %s, with separate copies of U %s" % (
+                    sg.short_name, [x.tolist() for x in xs], len(xs), n, numpy.array(e1.expandedUijs[n][0]).tolist(),
+                    numpy.array(e2.expandedUijs[n][0]).tolist()), data)
+                return
+    # arrays handed to SymmetryConstraints stay as they were
+    P = numpy.array([x for x in xs] + [xs[0] + numpy.array([1.0, -1.0, 2.0])])
+    UA = numpy.array([U0 for _ in range(len(P))])
+    P0, UA0 = P.copy(), UA.copy()
+    sc = SymmetryConstraints(sg, P, UA)
+    if not numpy.array_equal(P, P0) and not want_u:
+        yield ("alias-input", "SymmetryConstraints(%s, positions) modified the caller's position array" % sg.short_name, data)
+        return
+    if not numpy.array_equal(UA, UA0) and want_u:
+        yield ("alias-input", "SymmetryConstraints(%s, positions, Uijs) modified the caller's Uijs array" % sg.short_name, data)
+        return
+
+    # ---------------- read-only queries
+    import copy
+    snap = copy.deepcopy((sc.poseqns, sc.pospars, sc.Ueqns, sc.Upars, sc.coremap, [list(map(float, p)) for p in sc.positions],
+                          numpy.array(sc.Uijs).tolist(), list(sc.Uisotropy)))
+    first = copy.deepcopy((sc.positionFormulas(), sc.UFormulas()))
+    sc.positionFormulasPruned(); sc.UFormulasPruned(); sc.posparSymbols(); sc.posparValues(); sc.UparSymbols(); sc.UparValues()  # noqa: E702
+    if sc.pospars:
+        sc.positionFormulas(["p%d" % i for i in range(len(sc.pospars))]); sc.positionFormulasPruned(["p%d" % i for i in range(len(sc.pospars))])  # noqa: E702
+    if sc.Upars:
+        sc.UFormulas(["q%d" % i for i in range(len(sc.Upars))]); sc.UFormulasPruned(["q%d" % i for i in range(len(sc.Upars))])  # noqa: E702
+    after = (sc.poseqns, sc.pospars, sc.Ueqns, sc.Upars, sc.coremap, [list(map(float, p)) for p in sc.positions],
+             numpy.array(sc.Uijs).tolist(), list(sc.Uisotropy))
+    names = ["poseqns", "pospars", "Ueqns", "Upars", "coremap", "positions", "Uijs", "Uisotropy"]
+    mine = (0, 1, 4, 5) if not want_u else (2, 3, 6, 7)
+    for i in mine:
+        if snap[i] != after[i]:
+            yield ("query-state", "SymmetryConstraints(%s).%s changed after the read-only queries positionFormulasPruned()/UFormulasPruned()/...: "
+                   "%r -> %r" % (sg.short_name, names[i], snap[i][:3] if isinstance(snap[i], list) else snap[i],
+                                 after[i][:3] if isinstance(after[i], list) else after[i]), data)
+            return
+    again = (sc.positionFormulas(), sc.UFormulas())
+    if first[0 if not want_u else 1] != again[0 if not want_u else 1]:
+        yield ("query-state", "SymmetryConstraints(%s).%s() returns %r after the pruned view was requested, before %r" % (
+            sg.short_name, "positionFormulas" if not want_u else "UFormulas", again[0 if not want_u else 1][:2],
+            first[0 if not want_u else 1][:2]), data)
+        return
+    g0 = ref[0]
+    s0 = _gen_state(g0)
+    q1 = [(dict(g0.positionFormula(p)), dict(g0.UFormula(p)), int(g0.eqIndex(p))) for p in g0.eqxyz]
+    q2 = [(dict(g0.positionFormula(p)), dict(g0.UFormula(p)), int(g0.eqIndex(p))) for p in g0.eqxyz]
+    k = _state_diff(s0, _gen_state(g0))
+    if k is not None or q1 != q2:
+        yield ("query-state", "GeneratorSite(%s, %s): %s changed by calling positionFormula/UFormula/eqIndex" % (
+            sg.short_name, xs[0].tolist(), k or "the answers"), data)
+        return
+
+    # ---------------- non-default tolerances
+    delta = numpy.array(case["delta"])
+    for eps, rounded in ((1e-3, True), (1e-7, False)):
+        for x, xf in zip(sites, xs):
+            xin = numpy.round(xf, 4) if rounded else xf.copy()
+            what = "GeneratorSite(%s, %s, U, eps=%g)" % (sg.short_name, xin.tolist(), eps)
+            g = GeneratorSite(sg, xin, U0.copy(), eps=eps)
+            orb = st.orbit(ops, x)
+            if g.multiplicity != len(orb):
+                if not want_u:
+                    yield ("eps-multiplicity", "%s: multiplicity %d, the site within eps has an orbit of %d" % (what, g.multiplicity, len(orb)), data)
+                break
+            upar = g.Uparameters
+            ppar = {n: F(float(v)) for n, v in g.pparameters}
+            for i, p in enumerate(g.eqxyz):
+                q = p + 0.9 * eps * delta
+                pf, uf = g.positionFormula(q), g.UFormula(q)
+                if not want_u:
+                    if sorted(pf) != ["x", "y", "z"]:
+                        yield ("eps-formula", "%s.positionFormula(%s) = %r for a point within eps of the equivalent position %s" % (
+                            what, q.tolist(), pf, p.tolist()), data)
+                        return
+                    y = [eval_formula_ast(pf[c], ppar) for c in "xyz"]
+                    if not near_mod1(y, [F(float(v)) for v in p], 4 * TOL_POS):
+                        yield ("eps-formula", "%s.positionFormula(%s) = %r at %r does not give the equivalent position %s" % (
+                            what, q.tolist(), pf, g.pparameters, p.tolist()), data)
+                        return
+                else:
+                    if sorted(uf) != sorted(USYM):
+                        yield ("eps-formula", "%s.UFormula(%s) = %r for a point within eps of the equivalent position %s "
+                               "(positionFormula gives %r)" % (what, q.tolist(), uf, p.tolist(), pf), data)
+                        return
+                    got = _formulas_tensor(uf, upar)
+                    wantU = [F(float(g.eqUij[i][a][b])) for a, b in UIDX]
+                    if max(abs(a - b) for a, b in zip(got, wantU)) > F(1, 10 ** 9):
+                        yield ("eps-formula", "%s.UFormula(%s) = %r at %r does not give eqUij %s" % (
+                            what, q.tolist(), uf, upar, g.eqUij[i].tolist()), data)
+                        return
+                # a point farther than eps from every equivalent position: both formula queries agree that it is foreign
+                far = p + 40.0 * eps * delta
+                if min(_boxd(far % 1.0, numpy.array(e) % 1.0) for e in g.eqxyz) > 2 * eps:
+                    pf2, uf2 = g.positionFormula(far), g.UFormula(far)
+                    if bool(pf2) != bool(uf2) and (want_u or not pf2):
+                        yield ("eps-consistency", "%s: positionFormula(%s) = %r but UFormula gives %r" % (what, far.tolist(), pf2, uf2), data)
+                        return
+        # the same through SymmetryConstraints: the whole (rounded) orbit of the first site
+        orb = [numpy.array([float(v) for v in p]) for p, _ in st.orbit(ops, sites[0])]
+        if len(orb) > 48:
+            continue
+        pos = [(numpy.round(p, 4) if rounded else p).tolist() for p in orb]
+        Us = [U0.tolist() for _ in pos]
+        what = "SymmetryConstraints(%s, %s..., Uijs, eps=%g)" % (sg.short_name, pos[:2], eps)
+        sc = SymmetryConstraints(sg, pos, Us, eps=eps)
+        if sorted(sorted(v) for v in sc.coremap.values()) != [list(range(len(pos)))]:
+            if not want_u:
+                yield ("eps-partition", "%s: coremap %r, the positions are one orbit within eps" % (what, dict(sc.coremap)), data)
+            continue
+        if not want_u:
+            vals = {s: F(float(v)) for s, v in sc.pospars}
+            for i, eq in enumerate(sc.positionFormulas()):
+                if sorted(eq) != ["x", "y", "z"] or not near_mod1([eval_formula_ast(eq[c], vals) for c in "xyz"],
+                                                                  [F(float(v)) for v in sc.positions[i]], 4 * TOL_POS):
+                    yield ("eps-formula", "%s: positionFormulas()[%d] = %r at %r does not give the stored position %s" % (
+                        what, i, eq, sc.pospars, list(sc.positions[i])), data)
+                    return
+        else:
+            for i, ue in enumerate(sc.UFormulas()):
+                if sorted(ue) != sorted(USYM):
+                    yield ("eps-formula", "%s: UFormulas()[%d] = %r (positionFormulas()[%d] = %r)" % (what, i, ue, i, sc.poseqns[i]), data)
+                    return
+                got = _formulas_tensor(ue, sc.Upars)
+                wantU = [F(float(sc.Uijs[i][a][b])) for a, b in UIDX]
+                if max(abs(a - b) for a, b in zip(got, wantU)) > F(1, 10 ** 9):
+                    yield ("eps-formula", "%s: UFormulas()[%d] = %r at %r does not give Uijs[%d] = %s" % (
+                        what, i, ue, sc.Upars, i, numpy.array(sc.Uijs[i]).tolist()), data)
+                    return
+
+
+# ---------------------------------------------------------------- long listings: two-digit site indices, custom symbols, query histories
+def _symname(i):
+    return "s" + chr(97 + (i // 26) % 26) + chr(97 + i % 26)
+
+
+def make_long_case(ops, strata, rng, norbits=12, minpos=20, maxpos=120):
+    """>= 12 different orbits of one stratum with free coordinates (smallest multiplicity available), >= 20 positions;
+    one member of every orbit first (generators at listing indices 0..11, so parameter symbols x1 and x10, x11 coexist),
+    the other members shuffled behind them."""
+    cands = [s for s in strata if len(s["fix"]) > 0]
+    if not cands:
+        return None
+    cands.sort(key=lambda s: (len(ops) // len(s["stab"]), rng.random()))
+    s = cands[0]
+    m = len(ops) // len(s["stab"])
+    k = max(norbits, -(-minpos // m))
+    if k * m > maxpos:
+        k = max(2, maxpos // m)
+    pts = []
+    for _ in range(4 * k):
+        x = st.sample_point(ops, s, rng, big=bool(len(pts) % 2))
+        if x is not None and all(tuple(x) != tuple(y) for y in pts):
+            pts.append(x)
+        if len(pts) == k:
+            break
+    return {"sites": [[str(v) for v in x] for x in pts], "seed": rng.randrange(10 ** 9)} if len(pts) >= 2 else None
+
+
+def finder_long_listing(sg, ops, case, pid):
+    """Custom-symbol forms and query histories of SymmetryConstraints on a long listing.  Yields (kind, message, data)."""
+    from diffpy.structure.symmetryutilities import SymmetryConstraints, isconstantFormula
+    rng = __import__("random").Random(case["seed"])
+    want_u = pid == "C06"
+    sites = [[F(v) for v in x] for x in case["sites"]]
+    orbs = []
+    seen = set()
+    for x in sites:
+        o = [tuple(p) for p, _ in st.orbit(ops, x)]
+        if seen & set(o):
+            continue
+        seen |= set(o)
+        orbs.append(o)
+    head, tail = [], []
+    for lab, o in enumerate(orbs):
+        o = list(o)
+        rng.shuffle(o)
+        head.append((lab, o[0]))
+        tail += [(lab, p) for p in o[1:]]
+    rng.shuffle(tail)
+    items = head + tail
+    positions = [[float(p[i]) + rng.randrange(-2, 3) + rng.uniform(-1e-7, 1e-7) for i in range(3)] for _, p in items]
+    labels = [lab for lab, _ in items]
+    exact = [p for _, p in items]
+    n = len(positions)
+    Uijs = None
+    if want_u:
+        Uijs = []
+        for _ in range(n):
+            d = [rng.randrange(20, 900) / 10000.0 for _ in range(3)]
+            o = [rng.randrange(-150, 150) / 10000.0 for _ in range(3)]
+            Uijs.append([[d[0], o[0], o[1]], [o[0], d[1], o[2]], [o[1], o[2], d[2]]])
+    data = {"long": case, "positions": positions}
+
+    def build():
+        return SymmetryConstraints(sg, [list(p) for p in positions], Uijs=[[list(r) for r in U] for U in Uijs] if want_u else None)
+    sc = build()
+    want = {}
+    for i, lab in enumerate(labels):
+        want.setdefault(lab, []).append(i)
+    if sorted(sorted(v) for v in sc.coremap.values()) != sorted(sorted(v) for v in want.values()):
+        if not want_u:
+            yield ("partition", "long listing of %d positions: coremap classes differ from the %d exact orbits" % (n, len(want)), data)
+        return
+    what = "SymmetryConstraints(%s, <%d positions, generators at %s>)" % (sg.short_name, n, sorted(sc.coremap)[:14])
+    if not want_u:
+        pars, default, custom_fn, pruned_fn, keys = sc.pospars, sc.positionFormulas(), sc.positionFormulas, sc.positionFormulasPruned, ["x", "y", "z"]
+        target = [[F(float(v)) for v in sc.positions[i]] for i in range(n)]
+        argname, qname = "xyzsymbols", "positionFormulas"
+    else:
+        pars, default, custom_fn, pruned_fn, keys = sc.Upars, sc.UFormulas(), sc.UFormulas, sc.UFormulasPruned, USYM
+        target = [[F(float(sc.Uijs[i][a][b])) for a, b in UIDX] for i in range(n)]
+        argname, qname = "Usymbols", "UFormulas"
+    default = [dict(d) for d in default]
+    syms = [_symname(i) for i in range(len(pars))]
+    dvals = {s: F(float(v)) for s, v in pars}
+    cvals = {c: F(float(v)) for c, (s, v) in zip(syms, pars)}
+    if pars:
+        custom = custom_fn(syms)
+        cpruned = pruned_fn(syms)
+        for i in range(n):
+            if sorted(custom[i]) != sorted(keys):
+                yield ("custom-symbols", "%s.%s(%s=...)[%d] = %r" % (what, qname, argname, i, custom[i]), data)
+                return
+            for kx, key in enumerate(keys):
+                try:
+                    cv = eval_formula_ast(custom[i][key], cvals)
+                except CertError:
+                    yield ("custom-symbols", "%s.%s(%s=%s...)[%d][%r] = %r cannot be evaluated with the user's symbols bound to the parameter "
+                           "values (standard formula %r, parameters %s...)" % (what, qname, argname, syms[:3], i, key, custom[i][key],
+                                                                               default[i][key], [s for s, _ in pars][:14]), data)
+                    return
+                dv = eval_formula_ast(default[i][key], dvals)
+                ok = cv == dv and ((abs(cv - target[i][kx]) <= F(1, 10 ** 9)) if want_u else True)
+                if not ok:
+                    yield ("custom-symbols", "%s.%s(%s=...)[%d][%r] = %r evaluates to %s, the standard formula %r to %s" % (
+                        what, qname, argname, i, key, custom[i][key], float(cv), default[i][key], float(dv)), data)
+                    return
+            if not want_u and not near_mod1([eval_formula_ast(custom[i][c], cvals) for c in "xyz"], target[i], 4 * TOL_POS):
+                yield ("custom-symbols", "%s.%s(%s=...)[%d] = %r does not reproduce the stored position" % (what, qname, argname, i, custom[i]), data)
+                return
+            if cpruned[i] != {k: v for k, v in custom[i].items() if not isconstantFormula(v)}:
+                yield ("custom-symbols", "%s.%sPruned(%s=...)[%d] = %r, the unpruned translation is %r" % (what, qname, argname, i, cpruned[i], custom[i]), data)
+                return
+    # interleaved queries on the one object answer like a fresh object asked once
+    seq = [("pruned", None), ("full", syms), ("pruned", syms), ("full", None), ("pruned", None), ("full", None)]
+    for step, (which, arg) in enumerate(seq):
+        if arg is not None and not pars:
+            continue
+        fresh = build()
+        f_fn = {"full": (fresh.UFormulas if want_u else fresh.positionFormulas), "pruned": (fresh.UFormulasPruned if want_u else fresh.positionFormulasPruned)}[which]
+        s_fn = {"full": custom_fn, "pruned": pruned_fn}[which]
+        a = s_fn(arg) if arg is not None else s_fn()
+        b = f_fn(arg) if arg is not None else f_fn()
+        if [dict(d) for d in a] != [dict(d) for d in b]:
+            i = next(j for j in range(n) if dict(a[j]) != dict(b[j]))
+            yield ("query-history", "%s: query %d of the history %s (%s%s) answers %r for position %d, a fresh object answers %r" % (
+                what, step + 1, [w + ("(custom)" if g else "()") for w, g in seq[:step + 1]], qname, "Pruned" if which == "pruned" else "",
+                dict(a[i]), i, dict(b[i])), data)
+            return
